@@ -346,6 +346,13 @@ Theorem C03_failed_step_recovers : forall lag steps f clk x (fl : file -> bool),
 Proof. exact failed_step_recovers. Qed.
 Print Assumptions C03_failed_step_recovers.
 
+(* what b3 runs (drop_ok fl L) contains every failing step F of L and every step after F in L, i.e. in script order -
+   where all steps downstream of F are (a consumer comes after its producer: ordered) *)
+Theorem C03_failed_step_rest : forall (fl : file -> bool) a F r,
+  fl F = true -> forall t, In t (F :: r) -> In t (drop_ok fl (a ++ F :: r)).
+Proof. exact drop_ok_from. Qed.
+Print Assumptions C03_failed_step_rest.
+
 (* without failures, and with the emitted recipes, the semantics with failing recipes IS StampSem.dmake: the theorems
    above about dmake speak about the same builds *)
 Theorem C03_fail_semantics_conservative : forall lag steps goals f clk,
